@@ -1396,6 +1396,10 @@ package url
 //@   loop 3 invariant arr(u.validationErrors) == pre(arr(u.validationErrors)) || freshL(u.validationErrors)
 //@   loop 3 invariant forall j int :: (pieceIdx < j && j < 8) ==> address[j] == 0   [C08 unparsed-pieces-are-zero]
 //@   loop 3 invariant ((numbersSeen == 0 || numbersSeen == 2 || numbersSeen == 4) && pieceIdx < 8) ==> address[pieceIdx] == 0   [C08 unparsed-pieces-are-zero]
+//@   loop 3 invariant ((numbersSeen == 1 || numbersSeen == 3) && pieceIdx < 8) ==> address[pieceIdx] <= 255
+//@   loop 3 step (numbersSeen == prev(numbersSeen) + 1 && 0 <= ipv4Piece && ipv4Piece <= 255 && pieceIdx == prev(pieceIdx) + (numbersSeen % 2 == 0 ? 1 : 0)
+//@            && address[prev(pieceIdx)] == (prev(numbersSeen) % 2 == 0 ? ipv4Piece : prev(address[prev(pieceIdx)]) * 256 + ipv4Piece)
+//@            && (forall j int :: (0 <= j && j < 8 && j != prev(pieceIdx)) ==> address[j] == prev(address[j])))   [C08 ipv4-tail-two-numbers-per-piece]
 //@   loop 3 decreases input.length - input.pointer
 //@   loop 4 modifies u.validationErrors, u.validationErrors[..], input.pointer, input.eof
 //@   loop 4 invariant cur(input) && -1 <= ipv4Piece && ipv4Piece <= 255 && (ipv4Piece >= 0 || (specIsDigit(c) && !input.eof))   [C08]
@@ -1403,6 +1407,8 @@ package url
 //@   loop 4 invariant input.pointer >= 0 && (input.eof || c == input.runes[input.pointer]) && (input.eof ==> c == 0xFFFD)
 //@   loop 4 invariant arr(u.validationErrors) == old(arr(u.validationErrors)) || fresh(u.validationErrors)
 //@   loop 4 invariant arr(u.validationErrors) == pre(arr(u.validationErrors)) || freshL(u.validationErrors)
+//@   loop 4 invariant off(input.runes) == 0 && pre(input.pointer) >= 0 && (ipv4Piece < 0 ==> input.pointer == pre(input.pointer))
+//@   loop 4 invariant ipv4Piece >= 0 ==> ipv4Piece == specDecAcc(content(input.runes), pre(input.pointer), input.pointer - pre(input.pointer))   [C08 ipv4-tail-number-is-decimal]
 //@   loop 4 decreases input.length - input.pointer
 //@   loop 5 modifies address[..]
 //@   loop 5 invariant address != nil && fresh(address) && 0 <= pieceIdx && pieceIdx <= 7 && 0 <= swaps && 0 <= compress && compress + swaps <= 8 && swaps <= pieceIdx + 1
